@@ -196,7 +196,10 @@ TLC_CONFIGS = {
     # cfg name -> (number of initial tables, {actor id: requested tables (1-based)}, aborting ids, registrar id)
     "GenDBImpl2.cfg": (2, {1: [1, 2], 2: [2]}, set(), 3),
     "GenDBImpl3.cfg": (3, {1: [1], 2: [3, 2], 3: [3, 1, 1]}, {3}, 4),
+    # actor 3 is the graveyard collector: its scan appears in the schedule as 30 + bit mask of the tables chosen
+    "GenDBImplGC.cfg": (2, {1: [1, 2], 2: [2]}, set(), 0),
 }
+TLC_COLLECTOR = {"GenDBImplGC.cfg": 3}
 
 
 def from_tlc(rng, cfgname, hist):
@@ -212,7 +215,28 @@ def from_tlc(rng, cfgname, hist):
     use_init = rng.random() < 0.5
     if use_init:
         g.add(op="reginit", tx=tx, t=0, name="a")
+    collector = TLC_COLLECTOR.get(cfgname, 0)
+    gctab = None
+    if collector:
+        scans = [h for h in hist if h >= 10 * collector]
+        if scans:
+            mask = scans[0] - 10 * collector
+            gctab = [i for i in range(nt) if mask >> i & 1][0]
+    it = g.changes(tx, gctab) if gctab is not None else None
     g.commit(tx)
+    if gctab is not None:
+        # collectable deletions in exactly the table the model's scan chose: the pass starts during the setup and
+        # parks at gc.scanned
+        tx = g.begin([gctab])
+        g.add(op="insert", tx=tx, t=gctab, obj=simple_obj(g, 0, 3), guard=0, gsym="", w=0)
+        g.add(op="insert", tx=tx, t=gctab, obj=simple_obj(g, 1, 4), guard=0, gsym="", w=0)
+        g.commit(tx)
+        tx = g.begin([gctab])
+        g.add(op="delete", tx=tx, t=gctab, obj=simple_obj(g, 0, 0), guard=0, gsym="", w=0)
+        g.add(op="delete", tx=tx, t=gctab, obj=simple_obj(g, 1, 0), guard=0, gsym="", w=0)
+        g.commit(tx)
+        s2 = g.snap()
+        g.next(it, src=g.snap_src(s2), take=-1)
     s = g.snap()
     for t in g.tables:
         g.q(g.snap_src(s), t, "id", "all", [], watch=True)
@@ -222,6 +246,9 @@ def from_tlc(rng, cfgname, hist):
     setup = g.ops
     g.ops = []
     actors, names = [], {}
+    if collector:
+        names[collector] = "GC"
+        hist = [collector if h >= 10 * collector else h for h in hist]
     done_marked = False
     for a, tabs in sorted(req.items()):
         g.ntx += 1
@@ -262,7 +289,14 @@ def from_tlc(rng, cfgname, hist):
         g.q(g.snap_src(s), t, "id", "all", [])
         g.scalar(g.snap_src(s), t, "rev")
     g.chans()
-    return [dict(op="sched", setup=setup, actors=actors, schedule=sched, finish=g.ops, gc=False, nilempty=False)]
+    if gctab is not None:
+        for it2, d in g.iters.items():
+            if d["st"] == "open":
+                s2 = g.snap()
+                g.next(it2, src=g.snap_src(s2), take=-1)
+                g.next(it2, src=g.snap_src(s2), take=-1)
+                g.iterclose(it2)
+    return [dict(op="sched", setup=setup, actors=actors, schedule=sched, finish=g.ops, gc=gctab is not None, nilempty=False)]
 
 
 # ---------------------------------------------------------------------------------------------
